@@ -57,6 +57,7 @@ def main(argv: List[str]) -> int:
             "outside_subset": cov["outside"],
             "table_obligations": n1,
             "bounded_root_sweep_inputs": sweep,
+            "cross_check": cov.get("cross_check"),
             "samples": cov["samples"][:6],
             "notes": run.notes,
         }
